@@ -2695,8 +2695,13 @@ GRwriteimage(int32 riid, int32 start[2], int32 in_stride[2], int32 count[2], voi
     else if (ri_ptr->data_modified == TRUE) /* written in this session: the data may still be in the buffer */
         new_image = FALSE;                  /* of a compressed element, where Hlength does not see them */
     else {
-        /* Check if the actual image data is in the file yet, or if just the tag & ref are known */
-        if (Hlength(ri_ptr->gr_ptr->hdf_file_id, ri_ptr->img_tag, ri_ptr->img_ref) > 0)
+        /* Check if the actual image data is in the file yet, or if just the tag & ref are known.
+           An element that is there but whose length cannot be obtained is an error, not a new image. */
+        int32 img_len = Hlength(ri_ptr->gr_ptr->hdf_file_id, ri_ptr->img_tag, ri_ptr->img_ref);
+
+        if (img_len == FAIL && Hexist(ri_ptr->gr_ptr->hdf_file_id, ri_ptr->img_tag, ri_ptr->img_ref) == SUCCEED)
+            HGOTO_ERROR(DFE_INTERNAL, FAIL);
+        if (img_len > 0)
             new_image = FALSE;
         else
             new_image = TRUE;
